@@ -10,6 +10,27 @@ TRUSTED_COMMON = [
 ]
 
 PROPS = {
+    "C01": {
+        "num": 1,
+        "vo": ["Properties/C01.vo"],
+        "harness_timeout": 2400,
+        "rule": "random rule sets of 1..4 no-loop rules with distinct saliences over a typed schema (integer, float, string, boolean, array fields; flat names and nested objects to depth 3; absent fields and objects; "
+                "occasional wrong-typed values, i64 extremes, NaN/inf/-0.0/subnormal), printed as GRL text and parsed by the real GRLParser: condition trees to depth 6 of &&, ||, !( ) over comparisons "
+                "(==,!=,<,<=,>,>= on fields, literals, field references and arithmetic with + - * / %, parentheses and negative literals; contains/startsWith/endsWith on strings; contains on arrays; in [..]; null tests; "
+                "1 in 20 leaves compare anything with anything); 1..3 assignments per rule (arithmetic, string concatenation, literals, field copies; targets: existing fields, new fields under existing objects, new "
+                "top-level names, paths under absent objects). Observed: the parsed Rule structures, every firing with the complete fact store after it (callback of execute_with_callback), cycle / evaluated / fired counters "
+                "or the error. non-trivial = at least one firing",
+        "level_text": "Theorems (Coq, all inputs): the engine's pass loop is a simulation of the documented reading - if each consideration of a rule agrees, the whole run agrees (firing order, facts after each firing, counters) - "
+                "and salience sorting keeps rule lists aligned. The model of the engine (condition evaluation on the parsed Rule, Operator::evaluate, the string-splitting expression evaluator with byte offsets, binary64 "
+                "and exact i64 arithmetic, Facts get/get_nested/set_nested with flat fallback) is compared with the code on every case: parsed rules, every firing's facts, counters. The Coq-defined documented meaning "
+                "(ForwardSpec.den_cond / den on the syntax tree: typed comparisons, null for missing fields, right-hand field references read from the facts, precedence and associativity as a tree) is evaluated against "
+                "the implementation's observations; runs the documentation leaves undefined are counted separately (outside_documented_domain).",
+        "level_note": "Partial: the per-consideration agreement (string-level evaluator = tree-level meaning) is checked by the monitor on every generated case and is being proved case by case (see DESIGN.md); "
+                "the loop simulation is proved. Known finding C01-string-literal-names-a-fact (monitor class 2). Trusted: Coq kernel; model of engine.rs/types.rs/expression.rs/facts.rs after fixes e2ff44b 037343a 20bd893 "
+                "d2e9583 5bcadd0 bde165d b77133a 71658c3; SpecFloat binary64; Base/Num.v decimal parsing (validated against the code on every case); ASCII instances of char::is_alphanumeric; harness; extraction. Axioms: none.",
+        "trusted_base": ["rexile regexes of grl.rs (rule/when-then/condition splitting) are not modelled: their result is observed (the parsed Rule) and compared with ForwardSpec.compile on every case"],
+        "assumptions": ["custom functions, plugins, method calls, retract, accumulate/exists/forall patterns are outside the typed core", "wall-clock timeout disabled; max_cycles default"],
+    },
     "C02": {
         "num": 2,
         "vo": ["Properties/C02.vo"],
